@@ -9,6 +9,7 @@
 import Kskm.Signer
 import KskmProofs.Lemmas.TokM
 import KskmProofs.Lemmas.HsmLoad
+import KskmProofs.Lemmas.HsmNoViol
 import KskmProofs.C14
 import KskmProofs.C15
 namespace Kskm.C04
@@ -102,6 +103,26 @@ theorem boundary_strict (mods : List P11Module) (ksk : KskKey) (pol : KskPolicy)
   · omega
   · have := h2 _ h; omega
 
+
+/-- **C04_window_iff.** The key-usage violation is reported exactly when the bundle lies outside
+    the window — and no other policy violation is ever reported by `load_pkcs11_key`: every other
+    failure (token error, duplicate label, wrong size/exponent/family, undecodable key) is a
+    non-policy error. -/
+theorem C04_window_iff (mods : List P11Module) (ksk : KskKey) (pol : KskPolicy) (b : Bundle)
+    (isPublic : Bool) (tok : Token) (s : TokState) (rule : Rule) :
+    (loadPkcs11Key mods ksk pol b isPublic tok s).1 = .error (.violation rule) ↔
+      rule = .keyUsage ∧ ¬ InWindow ksk b := by
+  constructor
+  · intro h
+    by_cases hw : InWindow ksk b
+    · rw [loadPkcs11Key_inside _ _ _ _ _ _ _ ((inWindow_iff ksk b).mp hw)] at h
+      exact absurd h (loadAfterWindow_noViol mods ksk pol isPublic tok s rule)
+    · rw [outside_window_refused mods ksk pol b isPublic tok s hw] at h
+      simp only [Except.error.injEq, Fail.violation.injEq] at h
+      exact ⟨h.symm, hw⟩
+  · rintro ⟨rfl, hw⟩
+    rw [outside_window_refused mods ksk pol b isPublic tok s hw]
+
 /-! ## The key loaded is the configured key -/
 
 /-- what `load_pkcs11_key` has established about a key it returns -/
@@ -184,6 +205,35 @@ theorem loaded_implies_params (mods : List P11Module) (ksk : KskKey) (pol : KskP
     (∃ r, keyToRdata ck.dns = .ok r ∧ ck.dns.keyTag = (C14.rfc4034KeyTag r : Nat)) := by
   have l := loaded_as mods ksk pol b isPublic tok s s' ck h
   exact ⟨l.flags, l.keyIdentifier, l.algorithm, l.ttl, l.publicKey, l.rsa, l.ec, l.keyTag⟩
+
+/-- **C04_iff (load).** `load_pkcs11_key` returns a key exactly when: the bundle is inside the
+    window, the lookup (modules in order, first hit) found an object `f0`, the record `f` after the
+    optional second lookup for the public part has a non-empty public key text `pk`, the key type
+    is RSA with the configured family / size / exponent or EC with an EC algorithm, and the DNSKEY
+    record `ck.dns` is the one built from `pk` (label, algorithm, policy TTL, flags 257). -/
+theorem loaded_iff (mods : List P11Module) (ksk : KskKey) (pol : KskPolicy) (b : Bundle)
+    (isPublic : Bool) (tok : Token) (s s' : TokState) (ck : CompositeKey) :
+    loadPkcs11Key mods ksk pol b isPublic tok s = (.ok (some ck), s') ↔
+      InWindow ksk b ∧ ∃ f0 s1 f,
+        getP11Key ksk.label isPublic ksk.hashUsingHsm mods tok s = (.ok (some f0), s1) ∧
+        refetchPublic mods ksk isPublic f0 tok s1 = (.ok f, s') ∧
+        ∃ pk, f.publicKey = some pk ∧ pk ≠ "" ∧ ck.p11 = f ∧
+          publicKeyToDnssecKey pk ksk.label ksk.algorithm pol.ttl 257 = .ok ck.dns ∧
+          ((f.keyType = .rsa ∧ RsaParamsMatch ksk pk) ∨
+           (f.keyType = .ec ∧
+             (isAlgorithmEcdsa ksk.algorithm = true ∨ isAlgorithmEddsa ksk.algorithm = true))) := by
+  constructor
+  · intro h
+    obtain ⟨hw, f0, s1, f, hg, hr, ha⟩ := loadPkcs11Key_some mods ksk pol b isPublic tok s s' ck h
+    obtain ⟨pk, h1, h2, h3, h4, h5⟩ := (acceptKey_some_iff ksk pol f ck).mp ha
+    exact ⟨(inWindow_iff ksk b).mpr hw, f0, s1, f, hg, hr, pk, h1, by simpa using h2, h3, h4, h5⟩
+  · rintro ⟨hw, f0, s1, f, hg, hr, pk, h1, h2, h3, h4, h5⟩
+    rw [loadPkcs11Key_inside _ _ _ _ _ _ _ ((inWindow_iff ksk b).mp hw)]
+    unfold loadAfterWindow
+    rw [hg]
+    simp only [hr]
+    rw [(acceptKey_some_iff ksk pol f ck).mpr ⟨pk, h1, by simpa using h2, h3, h4, h5⟩]
+
 
 /-! ## `_fetch_keys`: window, parameters, key tag and DS digest -/
 
